@@ -270,6 +270,8 @@ pub fn child(args: &Args) {
     let schedule: Vec<Op> = args.flag("schedule").map(|s| s.split(',').map(|x| match x { "p12" => Op::P12, "p3" => Op::P3, "s1" => Op::S1, "s2" => Op::S2, _ => Op::S3 }).collect()).unwrap_or_default();
     let forced = !schedule.is_empty();
     let k: u64 = args.flag("k").map(|v| v.parse().unwrap()).unwrap_or(1);
+    // patient re-run of a scenario whose return was not observed in time: the same scenario with long waits (the verdict must not hinge on machine load)
+    let patient = args.flag("patient").is_some();
     let sessions: usize = args.flag("sessions").map(|v| v.parse().unwrap()).unwrap_or(0);
     let order: Vec<usize> = args.flag("order").map(|s| s.split(',').filter(|x| !x.is_empty()).map(|x| x.parse().unwrap()).collect()).unwrap_or_default();
     let idle: usize = args.flag("idle").map(|v| v.parse().unwrap()).unwrap_or(0);
@@ -337,7 +339,7 @@ pub fn child(args: &Args) {
                         drop(std::mem::take(&mut keep));
                         // confirm by observation: returns within 8 s, or (if lost) stays parked
                         let t = Instant::now();
-                        while !HOWL_RETURNED.load(Ordering::SeqCst) && t.elapsed() < Duration::from_millis(if lost { 400 } else { 8000 }) {
+                        while !HOWL_RETURNED.load(Ordering::SeqCst) && t.elapsed() < Duration::from_millis(if lost { 400 } else if patient { 100_000 } else { 8000 }) {
                             std::thread::sleep(Duration::from_millis(5));
                         }
                         let moved = ST.lock().unwrap().as_ref().unwrap().moved;
@@ -411,7 +413,7 @@ pub fn child(args: &Args) {
             drop(conns);
             for c in idles { drop(c); log("idle_closed"); }
             let t = Instant::now();
-            while !HOWL_RETURNED.load(Ordering::SeqCst) && t.elapsed() < Duration::from_secs(10) {
+            while !HOWL_RETURNED.load(Ordering::SeqCst) && t.elapsed() < Duration::from_secs(if patient { 100 } else { 10 }) {
                 std::thread::sleep(Duration::from_millis(5));
             }
             verdict = json!({"mode": "sessions", "sessions": sessions, "idle": idle, "order": order, "late_served": late_served, "returned_before_gates": returned_early,
@@ -443,7 +445,7 @@ fn interleavings() -> Vec<Vec<&'static str>> {
     out
 }
 
-fn run_child(extra: &[(&str, String)], scratch: &std::path::Path, tag: &str) -> Result<Value, String> {
+fn run_child(extra: &[(&str, String)], scratch: &std::path::Path, tag: &str, patient: bool) -> Result<Value, String> {
     let port = crate::engines::tcp::free_port();
     let outp = scratch.join(format!("c18-{tag}-{port}.json"));
     let mut cmd = std::process::Command::new(std::env::current_exe().map_err(|e| e.to_string())?);
@@ -451,16 +453,19 @@ fn run_child(extra: &[(&str, String)], scratch: &std::path::Path, tag: &str) -> 
     for (k, v) in extra {
         cmd.arg(format!("--{k}")).arg(v);
     }
-    cmd.env("OHKAMI_KEEPALIVE_TIMEOUT", "8").stdout(std::process::Stdio::null()).stderr(std::process::Stdio::null());
+    if patient {
+        cmd.arg("--patient").arg("1");
+    }
+    cmd.env("OHKAMI_KEEPALIVE_TIMEOUT", "8").stdout(std::process::Stdio::null()).stderr(crate::engines::tcp::child_stderr(&format!("c18-{tag}-{port}")));
     let mut child = cmd.spawn().map_err(|e| e.to_string())?;
     let t = Instant::now();
     loop {
         match child.try_wait() {
             Ok(Some(_)) => break,
-            Ok(None) if t.elapsed() > Duration::from_secs(40) => {
+            Ok(None) if t.elapsed() > Duration::from_secs(if patient { 160 } else { 40 }) => {
                 let _ = child.kill();
                 let _ = child.wait();
-                return Err("watchdog: child exceeded 40 s".into());
+                return Err("watchdog: child exceeded its wall-clock limit".into());
             }
             _ => std::thread::sleep(Duration::from_millis(10)),
         }
@@ -501,7 +506,7 @@ pub fn run(args: &Args, rep: &mut Report) {
         }
         rep.begin(i as u64);
         rep.eval();
-        let doc = match run_child(extra, &scratch, &format!("{}-{i}", args.shard)) {
+        let mut doc = match run_child(extra, &scratch, &format!("{}-{i}", args.shard), false) {
             Ok(d) => d,
             Err(e) => {
                 rep.count("inconclusive_children");
@@ -510,6 +515,26 @@ pub fn run(args: &Args, rep: &mut Report) {
                 continue;
             }
         };
+        // "did not return" observed against a wall clock is not a verdict yet (the machine may be loaded): the scenario is re-run alone
+        // with 100 s of patience; a lost wake-up is decided logically and needs no re-run
+        let v = &doc["verdict"];
+        if v.get("inconclusive").is_none() && v["howl_returned"].as_bool() == Some(false) && v["lost_wakeup"].as_bool() != Some(true) {
+            rep.count("no_return_in_time:patient_reruns");
+            match run_child(extra, &scratch, &format!("{}-{i}p", args.shard), true) {
+                Ok(d) => {
+                    if d["verdict"]["howl_returned"].as_bool() == Some(true) {
+                        rep.count("no_return_in_time:returned_on_patient_rerun");
+                    }
+                    doc = d;
+                }
+                Err(e) => {
+                    rep.count("inconclusive_children");
+                    rep.count(&format!("inconclusive:{}", e.split(':').next().unwrap_or("?")));
+                    rep.end(i as u64);
+                    continue;
+                }
+            }
+        }
         judge(rep, i as u64, name, &doc);
         rep.end(i as u64);
     }
@@ -539,7 +564,7 @@ fn judge(rep: &mut Report, idx: u64, name: &str, doc: &Value) {
             if lost {
                 rep.violation("C18/lost-wakeup", &format!("realised order [{}]: flag set, handler finished, task parked and no wake since its poll began; howl returned: {returned}", realised.join(" ")), cj());
             } else if !returned {
-                rep.violation("C18/no-return-after-interrupt", &format!("realised order [{}]: a wake was delivered (or the flag was seen) but howl did not return within 8 s", realised.join(" ")), cj());
+                rep.violation("C18/no-return-after-interrupt", &format!("realised order [{}]: a wake was delivered (or the flag was seen) but howl did not return within 8 s, nor within 100 s when the scenario was re-run alone", realised.join(" ")), cj());
             } else {
                 rep.count("interleavings_returned");
                 if rep.want_sample() {
@@ -560,7 +585,7 @@ fn judge(rep: &mut Report, idx: u64, name: &str, doc: &Value) {
                 rep.violation("C18/served-after-interrupt", "a connection made after the interrupt handler ran was accepted and served", cj());
             }
             if !v["howl_returned"].as_bool().unwrap_or(false) {
-                rep.violation("C18/no-return-after-sessions", &format!("{n} sessions finished but howl did not return within 10 s"), cj());
+                rep.violation("C18/no-return-after-sessions", &format!("{n} sessions finished but howl did not return within 10 s, nor within 100 s when the scenario was re-run alone"), cj());
                 return;
             }
             let r = returned.first().copied().unwrap_or(u64::MAX);
